@@ -109,9 +109,13 @@ package goja
 
 // sort.Stable calls Less/Swap only with 0 <= i, j < Len() (assumed contract of the standard library).
 //@ func (*typedArraySortCtx).Less
-//@   props C17
+//@   props C17 C07
+//@   capture res Value = ToNumber#1
 //@   requires specSortCtxWF(ctx) && 0 <= i && i < ctx.ta.length && 0 <= j && j < ctx.ta.length
 //@   ensures specSortCtxWF(ctx) [ctx-wf]
+//@   ensures old(ctx.compare != nil && !ctx.detached && (!ctx.needValidate || !ctx.ta.viewedArrayBuf.detached)) && !specIsNegZero(res) ==> result == (specNumVal(res) < 0) [comparator-sign]
+// Known finding (kept by TestTypedArraySortComparatorReturnValueNegZero): -0 is treated as "less".
+//@   ensures old(ctx.compare != nil && !ctx.detached && (!ctx.needValidate || !ctx.ta.viewedArrayBuf.detached)) && specIsNegZero(res) ==> !result [comparator-negzero-means-equal]
 
 //@ func (*typedArraySortCtx).Swap
 //@   props C17
@@ -124,6 +128,7 @@ package goja
 //@   ensures ctx.detached || !ctx.ta.viewedArrayBuf.detached [validated]
 //@   ensures !ctx.needValidate || ctx.detached [no-longer-pending]
 //@   ensures ctx.ta == old(ctx.ta) [ta-unchanged]
+//@   ensures old(!ctx.detached && (!ctx.needValidate || !ctx.ta.viewedArrayBuf.detached)) ==> !ctx.detached [stays-attached]
 //@   assigns ctx.detached, ctx.needValidate
 
 // ---- helper frames: which library helpers can run script
